@@ -684,6 +684,24 @@ func (m *Mon) stepC06C07(sc *StepCtx, si stepInfo) {
 		}
 	}
 
+	// C06: a module-service call is a batch of one: its provider must be eligible too
+	if si.modSvcCall != nil {
+		for _, ids := range newReqs {
+			for _, id := range ids {
+				r := post.Requests[id]
+				rc, ok := post.Contexts[hexs(r.RequestContextId)]
+				if !ok {
+					continue
+				}
+				b, ok := pre.Bindings[bkey(rc.ServiceName, r.Provider)]
+				m.eval("C06")
+				m.hit("C06", "module-service-eligible", fmt.Sprintf("qos%d/avail%v", minInt(int(b.QoS), 4), b.Available))
+				if !ok || !b.Available || b.QoS > uint64(rc.Timeout) {
+					m.fail(sc, "C06", "eligible-set", "module-service-provider-ineligible", "module-service request issued to a provider whose binding is available=%v with response time %d, the context's timeout is %d", b.Available, b.QoS, rc.Timeout)
+				}
+			}
+		}
+	}
 	// C06: issue / skip / pause decision, block steps only
 	if !sc.IsBlock() {
 		return
@@ -1675,6 +1693,19 @@ func (m *Mon) stepRestart(sc *StepCtx, si stepInfo) {
 			m.fail(sc, "C09", "created-only-by-call", "restart", "context %.16s appears at a zero-height restart", id)
 		}
 	}
+	// withdrawal addresses are owners' standing instructions: they survive a restart
+	for o, a := range pre.Withdraw {
+		if post.Withdraw[o] != a {
+			m.fail(sc, "C13", "E4-withdraw-address", "lost@restart", "withdrawal address of %.8s (%.8s) is %q after a zero-height restart", o, a, post.Withdraw[o])
+			m.fail(sc, "C19", "import-complete", "withdraw-address@restart", "withdrawal address of %.8s is lost or changed by a zero-height restart", o)
+		}
+	}
+	for o := range post.Withdraw {
+		if _, ok := pre.Withdraw[o]; !ok {
+			m.fail(sc, "C13", "E4-withdraw-address", "appears@restart", "a withdrawal address for %.8s appears at a zero-height restart", o)
+		}
+	}
+	m.hit("C13", "E4-survives-restart", fmt.Sprintf("n%d", minInt(len(pre.Withdraw), 3)))
 	m.stepC15(sc, si)
 	m.stepC20(sc, si)
 }
